@@ -8,6 +8,8 @@ import (
 	"go/token"
 	"go/types"
 	"strings"
+
+	"golang.org/x/tools/go/packages"
 )
 
 func init() {
@@ -344,8 +346,15 @@ func (w *World) extOnce() {
 		return
 	}
 	w.extTypes = map[string]types.Type{}
-	pkg := w.ByPath[modPath+"/http"]
-	if pkg == nil {
+	for _, path := range []string{modPath + "/http", "buf.build/gen/go/bufbuild/protovalidate/protocolbuffers/go/buf/validate"} {
+		if pkg := w.ByPath[path]; pkg != nil {
+			w.scanExtensions(pkg)
+		}
+	}
+}
+
+func (w *World) scanExtensions(pkg *packages.Package) {
+	if len(pkg.Syntax) == 0 {
 		return
 	}
 	// 1. the extension table literal: []protoimpl.ExtensionInfo{ {ExtensionType: (*T)(nil), ...}, ... }
